@@ -36,6 +36,7 @@ FLOAT = Ty('float')
 BYTEARRAY = Ty('list', INT, 'bytearray')       # mutable; elements range-checked at stores (ValueError)
 BYTES = Ty('list', INT, 'bytes')  # immutable byte string: a list object that the subset never mutates
 OPAQUE = Ty('opaque')             # values never inspected (line ids, match objects ...)
+FN = Ty('fn')                     # a function value of the operator module (its code)
 CFG = Ty('cfg')                   # a node of the parsed YAML/JSON configuration (dict / list / scalar), read-only
 
 
@@ -106,6 +107,8 @@ def sort_of(t):
         return z3.IntSort()
     if k == 'version':
         return z3.RealSort()
+    if k == 'fn':
+        return z3.IntSort()
     if k in ('int', 'enum') or is_reflike(t):
         return z3.IntSort()
     if k == 'bool':
